@@ -163,6 +163,26 @@ def check_B(cell):
             return mgf(x, y, out=np.zeros(oshape))
 
         S += [("mg.%s(a, b, out=Tensor)" % b, sp(out_tensor)), ("np.%s(a, b, out=Tensor)" % b, sp(out_tensor_np)), ("mg.%s(a, b, out=ndarray)" % b, sp(out_array))]
+        # the where= and dtype= routes form their own equivalence classes (different results than the plain call)
+        msk = (np.arange(int(np.prod(oshape))).reshape(oshape) % 2 == 0) if oshape else np.array(True)
+
+        def w_mg(x, y):
+            t = mg.tensor(np.full(oshape, 0.5))
+            return mgf(x, y, where=msk, out=t)
+
+        def w_np(x, y):
+            t = mg.tensor(np.full(oshape, 0.5))
+            return npf(x, y, where=msk, out=t)
+
+        def w_arr(x, y):
+            return mgf(x, y, where=msk, out=np.full(oshape, 0.5))
+
+        r2 = run_spellings([("mg.%s(a, b, where=m, out=Tensor)" % b, sp(w_mg)), ("np.%s(a, b, where=m, out=Tensor)" % b, sp(w_np))])
+        if r2 is not None:
+            return r2
+        r3 = run_spellings([("mg.%s(a, b, dtype=float32)" % b, sp(lambda x, y: mgf(x, y, dtype="float32"))), ("np.%s(a, b, dtype=float32)" % b, sp(lambda x, y: npf(x, y, dtype="float32")))])
+        if r3 is not None:
+            return r3
         if b in IOP and kinds[0] == "t" and oshape == tuple(sa):
             def aug(x, y):
                 c = +x
